@@ -57,6 +57,7 @@ CHAR_TEMPLATES = [
     "Bar, 1 U.S. at 5 (x). Foo, supra, at 7.",
     "Shapiro v. Thompson, 394 U. S. 618, 2 F.2d 2",
     "Smith at 3, 1 U.S. 1; § 5 Id., at 9",
+    "Foo v. Bar, 1 U.S. 1 (1999). In Bar at 5, and Foo at 7.",
 ]
 CHARS = [" ", ",", ".", "1", "a", "A", "(", ")", "§", "\n", "é", "—", "v", "_"]
 
